@@ -867,3 +867,522 @@ Section Sem.
     destruct (den s e) as [v| | | |]; try (apply lands_err; [discriminate | assumption]).
     apply lands_ok; [apply (Hi v eq_refl) | assumption].
   Qed.
+
+  (* ---- L4: a binary node at its own tier, then all tiers ---- *)
+
+  Lemma lsem_bin op a b ta tb :
+    LSem (tier_of op) a ta -> Sem (S (tier_of op)) b tb ->
+    LSem (tier_of op) (EBin op a b) (ta ++ binop_token op :: tb).
+  Proof.
+    intros Ha Hb n i rest Hsk Hst Hn. cbn [pdepth] in Hn.
+    rewrite <- app_assoc in Hsk. cbn [app] in Hsk.
+    destruct (Ha n i _ Hsk (stops_op op _) ltac:(lia)) as (da & fa & HA).
+    pose proof (skipn_app_len _ _ _ _ Hsk) as Hsk1.
+    apply skipn_cons_nth in Hsk1. destruct Hsk1 as [Hnth Hsk2].
+    destruct (Hb n _ rest Hsk2 Hst ltac:(lia)) as (fb & HB).
+    exists (S da), (Nat.max fa fb). intros F HF j r o.
+    specialize (HA F ltac:(lia) (S j) r o).
+    replace (da + S j) with (S da + j) in HA by lia.
+    cbn [den].
+    destruct (den s a) as [va|er l|p| |]; try exact HA.
+    destruct HA as (r1 & o1 & HA & HW1). rewrite HA.
+    rewrite loop_op by assumption.
+    destruct (HB F ltac:(lia) (S r1) o1) as (i2 & r2 & o2 & E & Hi & HW2).
+    erewrite bind_run by exact E.
+    pose proof (W_trans _ _ _ HW1 HW2) as HW.
+    destruct (den s b) as [vb|er l|p| |]; try (apply lands_err; [discriminate | assumption]).
+    erewrite bind_run by apply apply_op_at.
+    destruct (fst (apply_op op va vb s)) as [v'|er l|p| |];
+      try (apply lands_err; [discriminate | assumption]).
+    exists r2, o2. split; [|assumption].
+    rewrite (Hi vb eq_refl). f_equal. f_equal.
+    rewrite app_length. cbn [length]. lia.
+  Qed.
+
+  Theorem renders_P k e ts : Renders k e ts -> P k e ts.
+  Proof.
+    induction 1 as [x|b|name|e ts _ IH|e ts _ IH|e ts _ IH|op e ts _ IH
+                   |op a b ta tb _ IHa _ IHb|k e ts Hk HR IH].
+    - apply sem_num.
+    - apply sem_str.
+    - apply sem_var.
+    - apply sem_paren, P_Sem, IH.
+    - apply sem_abs, P_Sem, IH.
+    - apply sem_int, P_Sem, IH.
+    - apply sem_un, IH.
+    - assert (Hk : tier_of op <= 5) by (destruct op; cbn; lia).
+      unfold P in *. apply Nat.leb_le in Hk. rewrite Hk in *.
+      apply lsem_bin; [exact IHa | apply P_Sem; exact IHb].
+    - apply P_Sem in IH. unfold P. destruct (Nat.leb_spec k 5).
+      + apply Sem_LSem; assumption.
+      + assert (k = 6) by lia. subst k. apply sem_incl6; assumption.
+  Qed.
+
+  Theorem renders_sem k e ts : Renders k e ts -> Sem k e ts.
+  Proof. intros H. apply P_Sem, renders_P, H. Qed.
+
+  (* The evaluator entry point, relative to the base state. *)
+  Theorem expr_sem_at e ts : Renders 0 e ts ->
+    forall n i rest, skipn i toks = ts ++ rest -> stops 0 rest = true ->
+      n + pdepth e < max_nesting ->
+    exists fuel0, forall fuel, fuel0 <= fuel -> forall r o,
+      lands (evaluate_expression fuel n (at_idx s i r o)) (den s e) (i + length ts) o.
+  Proof.
+    intros HR n i rest Hsk Hst Hn.
+    destruct (renders_sem _ _ _ HR n i rest Hsk Hst Hn) as (f0 & H).
+    exists (S f0). intros fuel Hf r o. destruct fuel as [|F]; [lia|].
+    rewrite evaluate_expression_ev by lia. apply H. lia.
+  Qed.
+End Sem.
+
+(* ------------------------------------------------------------------ *)
+(* L4: the main theorems *)
+
+Lemma skipn_length_app {A} (pre l : list A) : skipn (length pre) (pre ++ l) = l.
+Proof. induction pre as [|x pre IH]; [reflexivity | exact IH]. Qed.
+
+(* General version (warnings on or off): the result is the fold; on success the
+   cursor is just after the expression; nothing but the cursor index, the read
+   counter and the outputs changes; the outputs only grow, by warning records,
+   and not at all when warnings are off. *)
+Theorem expr_sem_gen : forall e ts, Renders 0 e ts ->
+  forall s pre rest n,
+    fst (cur_tokens s) = Ok (pre ++ ts ++ rest) -> loc_idx (loc s) = length pre ->
+    stops 0 rest = true ->
+    n + pdepth e < max_nesting ->
+  exists fuel0, forall fuel, fuel0 <= fuel ->
+    let '(r, s') := evaluate_expression fuel n s in
+    r = den s e
+    /\ (forall v, r = Ok v -> loc s' = mkloc (loc_line (loc s)) (length pre + length ts))
+    /\ set_outputs [] (set_reads 0 (set_loc (loc s) s')) = set_outputs [] (set_reads 0 s)
+    /\ (if enable_warnings s
+        then exists l, outputs s' = outputs s ++ l /\ Forall is_warning l
+        else outputs s' = outputs s).
+Proof.
+  intros e ts HR s pre rest n Htoks Hidx Hst Hn.
+  destruct (expr_sem_at s _ Htoks e ts HR n (length pre) rest (skipn_length_app _ _) Hst Hn)
+    as (f0 & H).
+  exists f0. intros fuel Hf. specialize (H fuel Hf (reads s) (outputs s)).
+  rewrite <- Hidx in *. rewrite at_idx_self in H.
+  destruct H as (i' & r' & o' & E & Hi & HW). rewrite E.
+  split; [reflexivity|]. split; [|split].
+  - intros v Hv. rewrite (Hi v Hv). reflexivity.
+  - reflexivity.
+  - exact HW.
+Qed.
+
+(* Warnings off: the statement of C02. *)
+Theorem expr_sem : forall e ts, Renders 0 e ts ->
+  forall s pre rest n, enable_warnings s = false ->
+    fst (cur_tokens s) = Ok (pre ++ ts ++ rest) -> loc_idx (loc s) = length pre ->
+    stops 0 rest = true ->
+    n + pdepth e < max_nesting ->
+  exists fuel0, forall fuel, fuel0 <= fuel ->
+    let '(r, s') := evaluate_expression fuel n s in
+    r = den s e
+    /\ (forall v, r = Ok v ->
+          s' = set_reads (reads s')
+                 (set_loc (mkloc (loc_line (loc s)) (length pre + length ts)) s))
+    /\ (* on every outcome nothing but the cursor index and the read counter changed *)
+       set_reads 0 (set_loc (loc s) s') = set_reads 0 s.
+Proof.
+  intros e ts HR s pre rest n Hw Htoks Hidx Hst Hn.
+  destruct (expr_sem_at s _ Htoks e ts HR n (length pre) rest (skipn_length_app _ _) Hst Hn)
+    as (f0 & H).
+  exists f0. intros fuel Hf. specialize (H fuel Hf (reads s) (outputs s)).
+  rewrite <- Hidx in *. rewrite at_idx_self in H.
+  destruct H as (i' & r' & o' & E & Hi & HW). rewrite E.
+  unfold W in HW. rewrite Hw in HW. subst o'.
+  split; [reflexivity|]. split.
+  - intros v Hv. rewrite (Hi v Hv).
+    destruct s as [? ? ? [? ?] ? ? ? ? ? ? ? ? ? ? ? ? ? ? ?]; reflexivity.
+  - destruct s as [? ? ? [? ?] ? ? ? ? ? ? ? ? ? ? ? ? ? ? ?]; reflexivity.
+Qed.
+
+(* ------------------------------------------------------------------ *)
+(* L5: corollaries *)
+
+(* -- redundant parentheses never change a result -- *)
+
+Fixpoint erase_parens (e : expr) : expr :=
+  match e with
+  | EParen a => erase_parens a
+  | EUn op a => EUn op (erase_parens a)
+  | EBin op a b => EBin op (erase_parens a) (erase_parens b)
+  | EAbs a => EAbs (erase_parens a)
+  | EInt a => EInt (erase_parens a)
+  | ENum _ | EStr _ | EVar _ => e
+  end.
+
+Lemma den_erase_parens s e : den s (erase_parens e) = den s e.
+Proof.
+  induction e as [x|b|name|op a IHa|op a IHa b IHb|a IHa|a IHa|a IHa];
+    cbn [erase_parens den]; rewrite ?IHa, ?IHb; reflexivity.
+Qed.
+
+Theorem den_parens s e1 e2 : erase_parens e1 = erase_parens e2 -> den s e1 = den s e2.
+Proof.
+  intros H. rewrite <- (den_erase_parens s e1), <- (den_erase_parens s e2), H. reflexivity.
+Qed.
+
+(* [den] reads only the variables, the call stack and the power oracle. *)
+Lemma apply_op_ext op v w s1 s2 : pow_oracle s1 = pow_oracle s2 ->
+  fst (apply_op op v w s1) = fst (apply_op op v w s2).
+Proof.
+  intros H. destruct op as [| |c|a|m|]; cbn [apply_op]; try reflexivity.
+  - unfold eval_eq; destruct v, w; reflexivity.
+  - unfold eval_addsub; destruct v, w; reflexivity.
+  - unfold eval_muldiv; destruct v, w, m; try reflexivity.
+    destruct (f64_eqb x0 f64_zero); reflexivity.
+  - unfold eval_pow; destruct v, w; try reflexivity.
+    rewrite !bind_get_run, H. destruct (pow_lookup _ _ _); reflexivity.
+Qed.
+
+Lemma den_ext s1 s2 e :
+  variables s1 = variables s2 -> stack s1 = stack s2 -> pow_oracle s1 = pow_oracle s2 ->
+  den s1 e = den s2 e.
+Proof.
+  intros Hv Hs Ho.
+  induction e as [x|b|name|op a IHa|op a IHa b IHb|a IHa|a IHa|a IHa];
+    cbn [den]; rewrite ?IHa, ?IHb; try reflexivity.
+  - unfold lookup_var. rewrite Hv, Hs. reflexivity.
+  - destruct (den s2 a) as [v| | | |]; try reflexivity. destruct op, v; reflexivity.
+  - destruct (den s2 a) as [v| | | |]; try reflexivity.
+    destruct (den s2 b) as [w| | | |]; try reflexivity.
+    apply apply_op_ext; assumption.
+Qed.
+
+(* Two spellings that differ only in redundant parentheses, evaluated in states
+   with the same variables, call stack and oracle (for instance the same
+   program state with two different immediate lines), give the same outcome:
+   the same value or the same error. *)
+Theorem expr_parens : forall e1 e2 ts1 ts2,
+  Renders 0 e1 ts1 -> Renders 0 e2 ts2 -> erase_parens e1 = erase_parens e2 ->
+  forall s1 s2 pre1 pre2 rest1 rest2 n1 n2,
+    variables s1 = variables s2 -> stack s1 = stack s2 -> pow_oracle s1 = pow_oracle s2 ->
+    fst (cur_tokens s1) = Ok (pre1 ++ ts1 ++ rest1) -> loc_idx (loc s1) = length pre1 ->
+    stops 0 rest1 = true -> n1 + pdepth e1 < max_nesting ->
+    fst (cur_tokens s2) = Ok (pre2 ++ ts2 ++ rest2) -> loc_idx (loc s2) = length pre2 ->
+    stops 0 rest2 = true -> n2 + pdepth e2 < max_nesting ->
+  exists fuel0, forall fuel, fuel0 <= fuel ->
+    fst (evaluate_expression fuel n1 s1) = fst (evaluate_expression fuel n2 s2).
+Proof.
+  intros e1 e2 ts1 ts2 R1 R2 He s1 s2 pre1 pre2 rest1 rest2 n1 n2 Hv Hs Ho T1 I1 S1 N1 T2 I2 S2 N2.
+  destruct (expr_sem_gen e1 ts1 R1 s1 pre1 rest1 n1 T1 I1 S1 N1) as (f1 & H1).
+  destruct (expr_sem_gen e2 ts2 R2 s2 pre2 rest2 n2 T2 I2 S2 N2) as (f2 & H2).
+  exists (Nat.max f1 f2). intros fuel Hf.
+  specialize (H1 fuel ltac:(lia)). specialize (H2 fuel ltac:(lia)).
+  destruct (evaluate_expression fuel n1 s1) as [r1 s1'].
+  destruct (evaluate_expression fuel n2 s2) as [r2 s2'].
+  destruct H1 as [-> _]. destruct H2 as [-> _]. cbn [fst].
+  rewrite (den_ext s1 s2 e1 Hv Hs Ho). apply den_parens, He.
+Qed.
+
+(* -- the documented rules, read off [den] -- *)
+
+Section DenFacts.
+  Variable s : interp.
+  Variables a b : expr.
+
+  (* errors of the left operand win, then errors of the right operand *)
+  Lemma den_left_error op e l : den s a = Err e l -> den s (EBin op a b) = Err e l.
+  Proof. intros H; cbn [den]; rewrite H; reflexivity. Qed.
+
+  Lemma den_right_error op v e l :
+    den s a = Ok v -> den s b = Err e l -> den s (EBin op a b) = Err e l.
+  Proof. intros H1 H2; cbn [den]; rewrite H1, H2; reflexivity. Qed.
+
+  (* comparisons yield 1 or 0: numeric, or byte-wise lexicographic on strings *)
+  Lemma den_cmp_num o x y : den s a = Ok (VNum x) -> den s b = Ok (VNum y) ->
+    den s (EBin (BCmp o) a b) = Ok (from_bool (cmp_num o x y)).
+  Proof. intros H1 H2; cbn [den]; rewrite H1, H2; reflexivity. Qed.
+
+  Lemma den_cmp_str o x y : den s a = Ok (VStr x) -> den s b = Ok (VStr y) ->
+    den s (EBin (BCmp o) a b) = Ok (from_bool (cmp_str o x y)).
+  Proof. intros H1 H2; cbn [den]; rewrite H1, H2; reflexivity. Qed.
+
+  (* logical operators yield 1 or 0; non-zero numbers and non-empty strings are true *)
+  Lemma den_and v w : den s a = Ok v -> den s b = Ok w ->
+    den s (EBin BAnd a b) = Ok (VNum (if to_bool v && to_bool w then f64_one else f64_zero)).
+  Proof. intros H1 H2; cbn [den]; rewrite H1, H2; reflexivity. Qed.
+
+  Lemma den_or v w : den s a = Ok v -> den s b = Ok w ->
+    den s (EBin BOr a b) = Ok (VNum (if to_bool v || to_bool w then f64_one else f64_zero)).
+  Proof. intros H1 H2; cbn [den]; rewrite H1, H2; reflexivity. Qed.
+
+  Lemma den_not v : den s a = Ok v ->
+    den s (EUn UNot a) = Ok (VNum (if to_bool v then f64_zero else f64_one)).
+  Proof. intros H; cbn [den]; rewrite H. destruct (to_bool v) eqn:E; cbn; rewrite E; reflexivity. Qed.
+
+  Lemma to_bool_num x : to_bool (VNum x) = negb (f64_eqb x f64_zero).
+  Proof. reflexivity. Qed.
+
+  Lemma to_bool_str x : to_bool (VStr x) = negb (Nat.eqb (length x) 0).
+  Proof. destruct x; reflexivity. Qed.
+
+  (* arithmetic *)
+  Lemma den_add x y : den s a = Ok (VNum x) -> den s b = Ok (VNum y) ->
+    den s (EBin (BAddSub OAdd) a b) = Ok (VNum (f64_add x y)).
+  Proof. intros H1 H2; cbn [den]; rewrite H1, H2; reflexivity. Qed.
+
+  Lemma den_sub x y : den s a = Ok (VNum x) -> den s b = Ok (VNum y) ->
+    den s (EBin (BAddSub OSubtract) a b) = Ok (VNum (f64_sub x y)).
+  Proof. intros H1 H2; cbn [den]; rewrite H1, H2; reflexivity. Qed.
+
+  Lemma den_mul x y : den s a = Ok (VNum x) -> den s b = Ok (VNum y) ->
+    den s (EBin (BMulDiv OMultiply) a b) = Ok (VNum (f64_mul x y)).
+  Proof. intros H1 H2; cbn [den]; rewrite H1, H2; reflexivity. Qed.
+
+  Lemma den_div x y : den s a = Ok (VNum x) -> den s b = Ok (VNum y) ->
+    f64_eqb y f64_zero = false ->
+    den s (EBin (BMulDiv ODivide) a b) = Ok (VNum (f64_div x y)).
+  Proof.
+    intros H1 H2 Hz; cbn [den]; rewrite H1, H2. cbn [apply_op]. unfold eval_muldiv.
+    rewrite Hz. reflexivity.
+  Qed.
+
+  (* dividing by +0 or -0 is DIVISION BY ZERO *)
+  Lemma den_div_zero x y : den s a = Ok (VNum x) -> den s b = Ok (VNum y) ->
+    f64_eqb y f64_zero = true ->
+    den s (EBin (BMulDiv ODivide) a b) = Err EDivisionByZero None.
+  Proof.
+    intros H1 H2 Hz; cbn [den]; rewrite H1, H2. cbn [apply_op]. unfold eval_muldiv.
+    rewrite Hz. reflexivity.
+  Qed.
+
+  Lemma neg_zero_is_zero :
+    f64_eqb f64_zero f64_zero = true /\ f64_eqb (f64_neg f64_zero) f64_zero = true.
+  Proof. split; vm_compute; reflexivity. Qed.
+
+  Lemma den_neg x : den s a = Ok (VNum x) -> den s (EUn UNegative a) = Ok (VNum (f64_neg x)).
+  Proof. intros H; cbn [den]; rewrite H; reflexivity. Qed.
+
+  Lemma den_pos v : den s a = Ok v -> den s (EUn UPositive a) = Ok v.
+  Proof. intros H; cbn [den]; rewrite H; reflexivity. Qed.
+
+  Lemma den_abs x : den s a = Ok (VNum x) -> den s (EAbs a) = Ok (VNum (f64_abs x)).
+  Proof. intros H; cbn [den]; rewrite H; reflexivity. Qed.
+
+  Lemma den_int x : den s a = Ok (VNum x) -> den s (EInt a) = Ok (VNum (f64_floor x)).
+  Proof. intros H; cbn [den]; rewrite H; reflexivity. Qed.
+
+  (* mixing string and numeric operands is TYPE MISMATCH (AND/OR accept both) *)
+  Definition strict_op (op : binop) : bool :=
+    match op with BOr | BAnd => false | _ => true end.
+
+  Lemma den_mixed_sn op x y : strict_op op = true ->
+    den s a = Ok (VStr x) -> den s b = Ok (VNum y) ->
+    den s (EBin op a b) = Err ETypeMismatch None.
+  Proof.
+    intros Hop H1 H2; cbn [den]; rewrite H1, H2.
+    destruct op as [| |c|o|o|]; try discriminate; reflexivity.
+  Qed.
+
+  Lemma den_mixed_ns op x y : strict_op op = true ->
+    den s a = Ok (VNum x) -> den s b = Ok (VStr y) ->
+    den s (EBin op a b) = Err ETypeMismatch None.
+  Proof.
+    intros Hop H1 H2; cbn [den]; rewrite H1, H2.
+    destruct op as [| |c|o|o|]; try discriminate; reflexivity.
+  Qed.
+
+  (* arithmetic on two strings is TYPE MISMATCH as well (no concatenation) *)
+  Lemma den_arith_str op x y : strict_op op = true -> (forall c, op <> BCmp c) ->
+    den s a = Ok (VStr x) -> den s b = Ok (VStr y) ->
+    den s (EBin op a b) = Err ETypeMismatch None.
+  Proof.
+    intros Hop Hc H1 H2; cbn [den]; rewrite H1, H2.
+    destruct op as [| |c|o|o|]; try discriminate; try reflexivity.
+    destruct (Hc c eq_refl).
+  Qed.
+
+  Lemma den_neg_str x : den s a = Ok (VStr x) -> den s (EUn UNegative a) = Err ETypeMismatch None.
+  Proof. intros H; cbn [den]; rewrite H; reflexivity. Qed.
+
+  Lemma den_abs_str x : den s a = Ok (VStr x) -> den s (EAbs a) = Err ETypeMismatch None.
+  Proof. intros H; cbn [den]; rewrite H; reflexivity. Qed.
+
+  Lemma den_int_str x : den s a = Ok (VStr x) -> den s (EInt a) = Err ETypeMismatch None.
+  Proof. intros H; cbn [den]; rewrite H; reflexivity. Qed.
+
+  Lemma den_paren : den s (EParen a) = den s a.
+  Proof. reflexivity. Qed.
+End DenFacts.
+
+(* ------------------------------------------------------------------ *)
+(* Non-vacuity: concrete token lists, their derivations, their values *)
+
+Lemma Renders_le k k' e ts : k' <= k -> k <= 7 -> Renders k e ts -> Renders k' e ts.
+Proof.
+  induction 1 as [|m Hle IH]; intros Hk H; [exact H|].
+  apply IH; [lia|]. apply R_incl; [lia | exact H].
+Qed.
+
+(* The theorem instantiated on an immediate line that is exactly the expression. *)
+Corollary expr_sem_immediate e ts : Renders 0 e ts -> pdepth e < max_nesting ->
+  let s := set_immediate ts init_interp in
+  exists fuel0, forall fuel, fuel0 <= fuel ->
+    fst (evaluate_expression fuel 0 s) = den s e
+    /\ (forall v, den s e = Ok v -> loc_idx (loc (snd (evaluate_expression fuel 0 s))) = length ts).
+Proof.
+  intros HR Hd s.
+  destruct (expr_sem_gen e ts HR s [] [] 0) as (f0 & H);
+    try reflexivity; try (cbn [app]; rewrite app_nil_r; reflexivity); try assumption.
+  exists f0. intros fuel Hf. specialize (H fuel Hf).
+  destruct (evaluate_expression fuel 0 s) as [r s']. destruct H as (-> & Hloc & _).
+  split; [reflexivity|]. intros v Hv. cbn [snd]. rewrite (Hloc v Hv). reflexivity.
+Qed.
+
+(* Every tree has a spelling: parenthesise every compound operand.  Together with
+   [den_parens] and [expr_sem]: the fold of any tree is what the evaluator
+   computes on some token list (up to the nesting cap). *)
+Fixpoint full_parens (e : expr) : expr :=
+  match e with
+  | ENum _ | EStr _ | EVar _ => e
+  | EUn op a => EParen (EUn op (full_parens a))
+  | EBin op a b => EParen (EBin op (full_parens a) (full_parens b))
+  | EAbs a => EAbs (full_parens a)
+  | EInt a => EInt (full_parens a)
+  | EParen a => full_parens a
+  end.
+
+Lemma erase_full_parens e : erase_parens (full_parens e) = erase_parens e.
+Proof.
+  induction e as [x|b|name|op a IHa|op a IHa b IHb|a IHa|a IHa|a IHa];
+    cbn [erase_parens full_parens]; rewrite ?IHa, ?IHb; reflexivity.
+Qed.
+
+Lemma full_parens_renders e : exists ts, Renders 7 (full_parens e) ts.
+Proof.
+  induction e as [x|b|name|op a [ta IHa]|op a [ta IHa] b [tb IHb]|a [ta IHa]|a [ta IHa]|a IHa];
+    cbn [full_parens].
+  - eexists; constructor.
+  - eexists; constructor.
+  - eexists; constructor.
+  - eexists. apply R_paren. apply (Renders_le 6); [lia | lia |]. apply R_un. exact IHa.
+  - assert (Hk : tier_of op <= 5) by (destruct op; cbn; lia).
+    eexists. apply R_paren. apply (Renders_le (tier_of op)); [lia | lia |].
+    apply R_bin; (eapply (Renders_le 7); [lia | lia | eassumption]).
+  - eexists. apply R_abs. apply (Renders_le 7); [lia | lia | exact IHa].
+  - eexists. apply R_int. apply (Renders_le 7); [lia | lia | exact IHa].
+  - exact IHa.
+Qed.
+
+Theorem every_tree_spelled e :
+  exists e' ts, erase_parens e' = erase_parens e /\ Renders 0 e' ts
+                /\ forall s, den s e' = den s e.
+Proof.
+  destruct (full_parens_renders e) as [ts H].
+  exists (full_parens e), ts. split; [apply erase_full_parens|]. split.
+  - apply (Renders_le 7); [lia | lia | exact H].
+  - intros s. apply den_parens, erase_full_parens.
+Qed.
+
+Module Examples.
+  Definition num (z : Z) : f64 := f64_of_Z z.
+  Definition run (ts : list token) : res value :=
+    fst (evaluate_expression 20 0 (set_immediate ts init_interp)).
+
+  Ltac up k := apply (Renders_le k); [cbn; lia | cbn; lia |].
+  Ltac atom := up 7; constructor.
+
+  (* NOT 1 = 1   is   (NOT 1) = 1   =   0 *)
+  Definition t1 := [TNot; TNumber (num 1); TEquals; TNumber (num 1)].
+  Definition e1 := EBin (BCmp OEqualTo) (EUn UNot (ENum (num 1))) (ENum (num 1)).
+  Example r1 : Renders 0 e1 t1.
+  Proof.
+    up 2. apply (R_bin (BCmp OEqualTo) _ _ [TNot; TNumber (num 1)] [TNumber (num 1)]).
+    - up 6. apply (R_un UNot). constructor.
+    - atom.
+  Qed.
+  Example v1 : run t1 = Ok (VNum f64_zero) /\ den init_interp e1 = Ok (VNum f64_zero).
+  Proof. split; vm_compute; reflexivity. Qed.
+
+  (* 8 / 4 / 2 AND 1 OR 0   is   (((8 / 4) / 2) AND 1) OR 0   =   1 *)
+  Definition t2 := [TNumber (num 8); TDivide; TNumber (num 4); TDivide; TNumber (num 2);
+                    TAnd; TNumber (num 1); TOr; TNumber (num 0)].
+  Definition e2 :=
+    EBin BOr
+      (EBin BAnd
+         (EBin (BMulDiv ODivide) (EBin (BMulDiv ODivide) (ENum (num 8)) (ENum (num 4)))
+               (ENum (num 2)))
+         (ENum (num 1)))
+      (ENum (num 0)).
+  Example r2 : Renders 0 e2 t2.
+  Proof.
+    apply (R_bin BOr _ _
+             [TNumber (num 8); TDivide; TNumber (num 4); TDivide; TNumber (num 2);
+              TAnd; TNumber (num 1)] [TNumber (num 0)]); [|atom].
+    up 1.
+    apply (R_bin BAnd _ _
+             [TNumber (num 8); TDivide; TNumber (num 4); TDivide; TNumber (num 2)]
+             [TNumber (num 1)]); [|atom].
+    up 4.
+    apply (R_bin (BMulDiv ODivide) _ _ [TNumber (num 8); TDivide; TNumber (num 4)]
+             [TNumber (num 2)]); [|atom].
+    apply (R_bin (BMulDiv ODivide) _ _ [TNumber (num 8)] [TNumber (num 4)]); atom.
+  Qed.
+  Example v2 : run t2 = Ok (VNum f64_one) /\ den init_interp e2 = Ok (VNum f64_one).
+  Proof. split; vm_compute; reflexivity. Qed.
+
+  (* -2 * 2   is   (-2) * 2   =   -4 *)
+  Definition t3 := [TMinus; TNumber (num 2); TMultiply; TNumber (num 2)].
+  Definition e3 := EBin (BMulDiv OMultiply) (EUn UNegative (ENum (num 2))) (ENum (num 2)).
+  Example r3 : Renders 0 e3 t3.
+  Proof.
+    up 4. apply (R_bin (BMulDiv OMultiply) _ _ [TMinus; TNumber (num 2)] [TNumber (num 2)]).
+    - up 6. apply (R_un UNegative). constructor.
+    - atom.
+  Qed.
+  Example v3 : run t3 = Ok (VNum (num (-4))) /\ den init_interp e3 = Ok (VNum (num (-4))).
+  Proof. split; vm_compute; reflexivity. Qed.
+
+  (* (1 + 2) * 3   =   9 *)
+  Definition t4 := [TLeftParen; TNumber (num 1); TPlus; TNumber (num 2); TRightParen;
+                    TMultiply; TNumber (num 3)].
+  Definition e4 :=
+    EBin (BMulDiv OMultiply) (EParen (EBin (BAddSub OAdd) (ENum (num 1)) (ENum (num 2))))
+         (ENum (num 3)).
+  Example r4 : Renders 0 e4 t4.
+  Proof.
+    up 4.
+    apply (R_bin (BMulDiv OMultiply) _ _
+             [TLeftParen; TNumber (num 1); TPlus; TNumber (num 2); TRightParen]
+             [TNumber (num 3)]); [|atom].
+    up 7. apply (R_paren _ [TNumber (num 1); TPlus; TNumber (num 2)]).
+    up 3. apply (R_bin (BAddSub OAdd) _ _ [TNumber (num 1)] [TNumber (num 2)]); atom.
+  Qed.
+  Example v4 : run t4 = Ok (VNum (num 9)) /\ den init_interp e4 = Ok (VNum (num 9)).
+  Proof. split; vm_compute; reflexivity. Qed.
+
+  (* the same through the theorem: for every sufficient fuel *)
+  Example v4_all_fuel : exists fuel0, forall fuel, fuel0 <= fuel ->
+    fst (evaluate_expression fuel 0 (set_immediate t4 init_interp)) = Ok (VNum (num 9)).
+  Proof.
+    destruct (expr_sem_immediate e4 t4 r4) as (f0 & H); [vm_compute; lia|].
+    exists f0. intros fuel Hf. destruct (H fuel Hf) as [-> _]. vm_compute. reflexivity.
+  Qed.
+
+  (* redundant parentheses: ((1) + (2)) * 3 has the same erasure as (1 + 2) * 3 *)
+  Definition e4' :=
+    EBin (BMulDiv OMultiply)
+         (EParen (EBin (BAddSub OAdd) (EParen (ENum (num 1))) (EParen (ENum (num 2)))))
+         (EParen (ENum (num 3))).
+  Example v4' : forall s, den s e4' = den s e4.
+  Proof. intros s. apply den_parens. reflexivity. Qed.
+
+  (* error kinds: 1 / 0 and "A" + 1 *)
+  Example v5 :
+    run [TNumber (num 1); TDivide; TNumber (num 0)] = Err EDivisionByZero None
+    /\ run [TString (bs "A"); TPlus; TNumber (num 1)] = Err ETypeMismatch None
+    /\ run [TString (bs "A"); TLessThan; TString (bs "B")] = Ok (VNum f64_one).
+  Proof. repeat split; vm_compute; reflexivity. Qed.
+End Examples.
+
+Print Assumptions renders_sem.
+Print Assumptions expr_sem_gen.
+Print Assumptions expr_sem.
+Print Assumptions expr_parens.
+Print Assumptions den_parens.
+Print Assumptions every_tree_spelled.
+Print Assumptions Examples.v4_all_fuel.
